@@ -562,15 +562,15 @@ fn main() {
     main_with(
         "C08",
         "model_checking",
-        "level-BFS over histories of schedule(op, delay in {0, min-1, min, min+1, u32::MAX}) / execute(op) / cancel(op) / set_min_delay in {0,2} / advance(1|2) on a thin wrapper over the real timelock library plus a call-counting target; operations X (no predecessor), X' (other salt), Y (predecessor X), W (predecessor = never-scheduled Z), Z (never scheduled; execute/cancel probes); start ledgers 2 and 100, initial minimum delay 2 and 0; after every accepted step: get_operation_state/get_operation_ledger/operation_exists/is_operation_pending/ready/done of 6 ids, get_min_delay, target counters and hash_operation of all operations compared with the reference model; states merged by canonical storage digest + ledger; non-trivial = distinct state reached through >=1 accepted call",
+        "level-BFS over histories of schedule(op, delay in {0, min-1, min, min+1, u32::MAX}) / execute(op) / cancel(op) / set_min_delay in {0,2} / advance(1|2) on a thin wrapper over the real timelock library plus a call-counting target; operations X (no predecessor), X' (other salt), Y (predecessor X), W (predecessor = never-scheduled Z), Z (never scheduled; execute/cancel probes); start ledgers 2 and 100, initial minimum delay 2 and 0; plus a small world {X, F = operation whose target call panics} with delays additionally {min+2, u32::MAX-1}, set_min_delay additionally u32::MAX, advance(3); after every accepted step: get_operation_state/get_operation_ledger/operation_exists/is_operation_pending/ready/done of 6 ids, get_min_delay, target counters and hash_operation of all operations compared with the reference model; states merged by canonical storage digest + ledger; non-trivial = distinct state reached through >=1 accepted call or ledger advance",
         |tier: Tier, r: &mut Runner| {
             let depth = tier.pick(5, 7);
-            let wall = tier.pick(20, 280);
+            let wall = tier.pick(18, 275);
             for start in [2u32, 100] {
                 r.world(&Tl { start, small: false }, &Bounds::new(depth, wall));
             }
             // universe {X, F = failing target call}, richer delays / min delays / advances
-            r.world(&Tl { start: 100, small: true }, &Bounds::new(tier.pick(5, 7), tier.pick(4, 30)));
+            r.world(&Tl { start: 100, small: true }, &Bounds::new(tier.pick(5, 7), tier.pick(6, 40)));
             if let Some(rep) = r.report() {
                 rep.require(&["schedule", "execute", "cancel", "set_min_delay", "advance"], &["schedule", "execute", "cancel"]);
                 rep.require_counter(&[
